@@ -120,6 +120,7 @@ func main() {
 		ex.writeWriteOrder(filepath.Join(*out, "WriteOrder.lean"))
 		ex.writeSlotCopies(filepath.Join(*out, "SlotCopies.lean"))
 		ex.writeIgnoredErrors(filepath.Join(*out, "IgnoredErrors.lean"))
+		ex.writeCallbacks(filepath.Join(*out, "Callbacks.lean"))
 	}
 }
 
@@ -204,6 +205,122 @@ func (ex *extractor) writeIgnoredErrors(path string) {
 		b.WriteString("  " + r + sep + "\n")
 	}
 	b.WriteString("]\n\nend Gkv.Gen.IgnoredErrors\n")
+	if err := os.WriteFile(path, []byte(b.String()), 0644); err != nil {
+		fail("%v", err)
+	}
+}
+
+// ---------------------------------------------------------------------------------------------
+// callback dispatch (C17): where the package consults a StoreCallbacks field, where it touches
+// Item.Val directly, and where a Store is given its callbacks.  "Each code path consults the
+// callback consistently" becomes: every field is consulted in exactly one wrapper function, the
+// value's length and bytes are taken from Item.Val in exactly the default arms of those wrappers,
+// and every derived store (snapshot, CopyTo destination) receives the whole callback struct.
+
+func (ex *extractor) isNamed(e ast.Expr, name string) bool {
+	tv, ok := ex.info.Types[e]
+	if !ok || tv.Type == nil {
+		return false
+	}
+	t := tv.Type
+	if p, ok := t.(*types.Pointer); ok {
+		t = p.Elem()
+	}
+	n, ok := t.(*types.Named)
+	return ok && n.Obj().Name() == name
+}
+
+func (ex *extractor) writeCallbacks(path string) {
+	var fields, vals, copies []string
+	for q, fd := range ex.funcs {
+		if fd.Body == nil {
+			continue
+		}
+		// parents, to classify a use by its context
+		parent := map[ast.Node]ast.Node{}
+		var stack []ast.Node
+		ast.Inspect(fd.Body, func(n ast.Node) bool {
+			if n == nil {
+				stack = stack[:len(stack)-1]
+				return true
+			}
+			if len(stack) > 0 {
+				parent[n] = stack[len(stack)-1]
+			}
+			stack = append(stack, n)
+			return true
+		})
+		ast.Inspect(fd.Body, func(n ast.Node) bool {
+			switch x := n.(type) {
+			case *ast.SelectorExpr:
+				// X.callbacks.F
+				if inner, ok := x.X.(*ast.SelectorExpr); ok && inner.Sel.Name == "callbacks" && ex.isNamed(inner, "StoreCallbacks") {
+					fields = append(fields, fmt.Sprintf("(%q, %q)", q, x.Sel.Name))
+				}
+				// whole struct used as a value
+				if x.Sel.Name == "callbacks" && ex.isNamed(x, "StoreCallbacks") {
+					if _, isSel := parent[x].(*ast.SelectorExpr); !isSel {
+						copies = append(copies, fmt.Sprintf("(%q, %q)", q, exprString(x)))
+					}
+				}
+				// I.Val on an Item
+				if x.Sel.Name == "Val" && ex.isNamed(x.X, "Item") {
+					how := "use"
+					switch pp := parent[x].(type) {
+					case *ast.CallExpr:
+						if id, ok := pp.Fun.(*ast.Ident); ok && id.Name == "len" {
+							how = "len"
+						} else if sel, ok := pp.Fun.(*ast.SelectorExpr); ok && (sel.Sel.Name == "ReadAt" || sel.Sel.Name == "WriteAt") {
+							how = "io"
+						}
+					case *ast.BinaryExpr:
+						if isNilIdent(pp.X) || isNilIdent(pp.Y) {
+							how = "nilcmp"
+						}
+					case *ast.AssignStmt:
+						for _, l := range pp.Lhs {
+							if l == ast.Expr(x) {
+								how = "store"
+							}
+						}
+					case *ast.KeyValueExpr:
+						how = "copy"
+					case *ast.ReturnStmt:
+						how = "return"
+					}
+					vals = append(vals, fmt.Sprintf("(%q, %q)", q, how))
+				}
+			case *ast.KeyValueExpr:
+				// Store{callbacks: <ident>} with a plain identifier (NewStoreEx's parameter)
+				if k, ok := x.Key.(*ast.Ident); ok && k.Name == "callbacks" {
+					if id, ok := x.Value.(*ast.Ident); ok {
+						copies = append(copies, fmt.Sprintf("(%q, %q)", q, id.Name))
+					}
+				}
+			}
+			return true
+		})
+	}
+	sort.Strings(fields)
+	sort.Strings(vals)
+	sort.Strings(copies)
+	var b strings.Builder
+	b.WriteString("/- GENERATED by /verif/harness/cmd/extract from /repo — do not edit. -/\nnamespace Gkv.Gen.Callbacks\n\n")
+	tbl := func(doc, name string, rows []string) {
+		b.WriteString("/-- " + doc + " -/\ndef " + name + " : List (String × String) := [\n")
+		for i, r := range rows {
+			sep := ","
+			if i == len(rows)-1 {
+				sep = ""
+			}
+			b.WriteString("  " + r + sep + "\n")
+		}
+		b.WriteString("]\n\n")
+	}
+	tbl("every use of a field of a store's `callbacks`: (enclosing function, field)", "fieldUses", fields)
+	tbl("every use of `Item.Val`: (enclosing function, how) with how = len | io (argument of ReadAt/WriteAt) | nilcmp |\n    store (assigned to) | copy (composite literal) | return | use", "valUses", vals)
+	tbl("every place a whole `StoreCallbacks` value is used: (enclosing function, expression)", "structUses", copies)
+	b.WriteString("end Gkv.Gen.Callbacks\n")
 	if err := os.WriteFile(path, []byte(b.String()), 0644); err != nil {
 		fail("%v", err)
 	}
